@@ -272,7 +272,12 @@ func printStruct(sb *stringBuilder, s *parser.StructLike, structType string) {
 
 func printConstTypedValue(sb *stringBuilder, ctv *parser.ConstTypedValue) {
 	if ctv.Double != nil {
-		sb.writeString(strconv.FormatFloat(*ctv.Double, 'f', -1, 64))
+		d := strconv.FormatFloat(*ctv.Double, 'f', -1, 64)
+		if !strings.Contains(d, ".") && len(d) > 18 {
+			// an integral value that may not fit an integer constant stays a double
+			d += ".0"
+		}
+		sb.writeString(d)
 	} else if ctv.Int != nil {
 		sb.writeString(fmt.Sprintf("%d", *ctv.Int))
 	} else if ctv.Literal != nil {
